@@ -1,19 +1,7 @@
 """Per-property metadata for MANIFEST.json (bin/mkmanifest)."""
 HOOK_COMMITS = []
 NOT_APPLICABLE = {}
-CHECKS = {
- 'C04': {
-  'technique': 'Coq proof (connected-component labelling model, induction/fixpoint invariant) + correspondence by vm_compute',
-  'text': 'Machine-checked theorems (detect_total, detect_spec, detect_none_iff, component sizes, strict/unmasked/finite foreground) '
-          'about a Gallina model of _detect_sources for every image size, data, threshold, mask, connectivity and npixels; the model is '
-          'tied to /repo on every run by evaluating it in Coq on the cases the real detect_sources ran (whole label array, labels, '
-          'areas, slices compared exactly). A proof is the right level because the property is a statement about all images including '
-          'ties, plateaus and diagonal contacts.',
-  'note': 'Trusted: Coq kernel + vm_compute; the correspondence harness; scipy.ndimage.label/find_objects are covered only through the '
-          'end-to-end comparison; detect_threshold with sigma clipping is compared numerically (background + nsigma*error form only). '
-          'Axioms: none.',
- },
-}
+CHECKS = {}
 
 # per-property entries delivered by the property workers: harness/manifest/CNN.json = {"technique", "text", "note"}
 import glob as _glob, json as _json, os as _os
